@@ -337,6 +337,8 @@ impl Property for C14 {
             let same = match (ra, rb) {
                 (ProbeResult::Ok(a), ProbeResult::Ok(b)) => a == b,
                 (ProbeResult::Err(_), ProbeResult::Err(_)) => true,
+                (ProbeResult::Panic(_), ProbeResult::Panic(_)) => true,
+                (ProbeResult::Crash(_), ProbeResult::Crash(_)) => true,
                 _ => false,
             };
             if !same {
